@@ -28,6 +28,7 @@ type HarnessSpec struct {
 	ExploreT  *int           `json:"explore_thorough,omitempty"`
 	MaxFaults *int           `json:"max_faults,omitempty"`
 	Solver    string         `json:"solver,omitempty"` // primary incremental solver (default z3-new)
+	Real      bool           `json:"real,omitempty"`   // exact-real interpretation of floats (equal up to rounding)
 	AbsConst  bool           `json:"abstract_const,omitempty"`
 	Precise   bool           `json:"precise,omitempty"`   // do not use the tier-1 float abstraction
 	NoReplay  bool           `json:"no_replay,omitempty"` // findings are schedule events (replayed inside gosym only)
@@ -197,6 +198,7 @@ func cmdCheck(args []string) int {
 		}
 		smt.Abstract = !h.Precise
 		smt.AbstractConst = h.AbsConst
+		smt.RealMode = h.Real
 		smt.SolverPath = "z3-new"
 		if h.Solver != "" {
 			smt.SolverPath = h.Solver
